@@ -1,6 +1,6 @@
 (* Non-vacuity: concrete graphs meeting the hypotheses of the C02 theorems. *)
 From V Require Import Common.Base C02.Graph C02.Order C02.SpecESM C02.Wrap C02.Resolve C02.ResolveSpec
-  C02.DataUrl C02.SpecDataUrl C02.OrderProofs C02.OrderEsmProofs C02.ResolveProofs C02.WrapProofs C02.DataUrlProofs C02.Emit C02.EmitProofs C02.ResolveChainProofs C02.ResolveDen C02.SpecDenProofs C02.StarHitsProofs C02.StarDenProofs C02.LinkDenProofs C02.ResolveStarsProofs C02.EvalOrder C02.EvalOrderProofs C02.WrapMinProofs C02.WrapGraph C02.WrapExactProofs.
+  C02.DataUrl C02.SpecDataUrl C02.OrderProofs C02.OrderEsmProofs C02.ResolveProofs C02.WrapProofs C02.DataUrlProofs C02.Emit C02.EmitProofs C02.ResolveChainProofs C02.ResolveDen C02.SpecDenProofs C02.StarHitsProofs C02.StarDenProofs C02.LinkDenProofs C02.ResolveStarsProofs C02.EvalOrder C02.EvalOrderProofs C02.WrapMinProofs C02.WrapGraph C02.WrapExactProofs C02.Interop C02.InteropProofs.
 
 (* diamond with a back edge: 1 -> 2,3 ; 2 -> 4 ; 3 -> 4 ; 4 -> 1 (cycle); file 0 is the runtime *)
 Definition ex_graph : graph :=
@@ -232,3 +232,26 @@ Example ex_wrap_egraph :
   /\ option_map (fun st => bundle_trace (egraph_of ex_wrap ex_wrap_order st) 1) (scan_steps12 true true ex_wrap ex_wrap_order)
      = Some (Some [EvStart 1; EvStart 4; EvEnd 4; EvStart 3; EvEnd 3; EvStart 2; EvEnd 2; EvEnd 1]).
 Proof. vm_compute. split; reflexivity. Qed.
+
+(* imports from a CommonJS file: file 1 (ESM-typed) has `import d, {x} from "./2"`, file 2 is
+   CommonJS and uses exports.  Both imports become namespace aliases on the record's namespace symbol
+   (ref 7); their values are module.exports and the own key x, as in node; the Babel-interop witness
+   (C02-G) lies outside interop_domain *)
+Definition ex_interop : graph :=
+  [ empty_module;
+    mkMod [mkRec (Some 2%nat) KStmt false true] [] [mkImp 5 0 false 0 (Some 7%nat) false false; mkImp 6 1 false 0 (Some 7%nat) false false]
+          [] [] EESM false false false false false true 9 true [];
+    mkMod [] [] [] [] [] ECJS false true false false false false 9 true [] ].
+Definition ex_interop_kinds (i : nat) : ekind := match i with 2%nat => ECJS | _ => EESM end.
+Example ex_interop_match :
+  match_import ex_interop ex_interop_kinds (fun _ => []) true (1%nat, 5%nat)
+  = Some (mkRes MNamespace 0 (Some (1%nat, 7%nat)) 0 0 0, [])
+  /\ match_import ex_interop ex_interop_kinds (fun _ => []) true (1%nat, 6%nat)
+  = Some (mkRes MNamespace 1 (Some (1%nat, 7%nat)) 0 0 0, []).
+Proof. vm_compute. split; reflexivity. Qed.
+Example ex_interop_values :
+  let c := mkCjs true [1; 0] in
+  interop_domain true c 0 = true /\ bundle_get true (IFStatement true) c 0 = VModuleExports
+  /\ bundle_get true (IFStatement false) c 1 = VKey 1 /\ bundle_get true IFDynamic c 2 = VUndefined
+  /\ interop_domain false c 0 = false /\ bundle_get false IFDynamic c 0 = VKey 0.
+Proof. vm_compute. repeat split; reflexivity. Qed.
